@@ -127,14 +127,13 @@ Definition class_width (cls : text) : option nat :=
   else if text_eqb cls (tx "estonia.DefaultAlgorithm") then Some 1
   else None.      (* czech_republic computes nothing; iceland's digit has no field of its own (and can be "10") *)
 
-Theorem national_class_shape cls accepts al vals K :
+Theorem national_class_shape cls accepts al vals K w :
   national_class e nd alphabet cls accepts = Some al -> al_compute al vals = Ok K ->
-  K = [] \/ (exists w, class_width cls = Some w /\ shape w K) \/ class_width cls = None.
+  class_width cls = Some w -> shape w K.
 Proof.
   unfold national_class, class_width.
   repeat match goal with |- context [text_eqb cls ?t] => destruct (text_eqb cls t) end;
-    intro H; inversion H; subst al; cbn [al_compute mk]; intro HK;
-    try (right; left; eexists; split; [reflexivity|]).
+    intro H; inversion H; subst al; cbn [al_compute mk]; intros HK Hw; inversion Hw; subst w.
   - exact (be_shape _ _ HK).
   - exact (iso_shape _ _ HK).
   - exact (variant_shape _ _ HK).
@@ -145,7 +144,34 @@ Proof.
   - exact (no_shape _ _ HK).
   - exact (pl_shape _ _ HK).
   - exact (ee_shape _ _ HK).
-  - left. inversion HK. reflexivity.
-  - right; right; reflexivity.
+Qed.
+
+(* the classes that compute a check digit validate by computing and comparing *)
+Theorem national_class_default cls accepts al w :
+  national_class e nd alphabet cls accepts = Some al -> class_width cls = Some w ->
+  al_accepts al = accepts /\ al_validate al = default_validate (al_compute al) /\ 0 < w.
+Proof.
+  unfold national_class, class_width.
+  repeat match goal with |- context [text_eqb cls ?t] => destruct (text_eqb cls t) end;
+    intros H Hw; inversion H; subst al; inversion Hw; cbn [al_accepts al_validate al_compute mk];
+    repeat split; lia.
+Qed.
+
+(* an accepting validation means the class's computation succeeded, and - for the classes that compare - returned
+   the expected digits *)
+Theorem national_class_valid_compute cls accepts al comps expected :
+  national_class e nd alphabet cls accepts = Some al -> al_validate al comps expected = Ok true ->
+  exists K, al_compute al comps = Ok K /\ (forall w, class_width cls = Some w -> K = expected).
+Proof.
+  unfold national_class, class_width.
+  repeat match goal with |- context [text_eqb cls ?t] => destruct (text_eqb cls t) end;
+    intro H; inversion H; subst al; cbn [al_compute al_validate mk]; intro HV;
+    try (unfold default_validate in HV;
+         match type of HV with context [bind ?c _] => destruct c as [K|x|x]; try discriminate end;
+         cbn [bind] in HV; exists K; split; [reflexivity|]; intros w _; apply text_eqb_eq;
+         inversion HV; reflexivity).
+  - exists []. split; [reflexivity|]. intros w Hw. discriminate.
+  - unfold is_validate in HV. destruct comps as [|h [|h2 comps]]; try discriminate.
+    destruct (is_compute nd [h]) as [K|x|x]; try discriminate. exists K. split; [reflexivity|]. intros w Hw. discriminate.
 Qed.
 End Shapes.
